@@ -221,7 +221,7 @@ def run(res, tier, seed):
             kk = f"{v['input']['lookup']}->{e2['kind']}:{e2['hook']}/{e2['full']}"
             e2e_kinds[kk] = e2e_kinds.get(kk, 0) + 1
             orders.add((v["input"]["par"]["id"], json.dumps(v["input"]["zone"], sort_keys=True), v["input"]["oo"]))
-            if v["ok"] and v["secure_sets"] > 1:
+            if v["secure_sets"] > 1:
                 res.sample({"zone": {nm(z["n"]): z["ty"] for z in v["input"]["zone"]}, "opt_out": v["input"]["oo"],
                             "params": REAL_PARAMS[v["input"]["par"]["id"]], "q": nm(v["input"]["q"]), "t": v["input"]["t"],
                             "rfc1034_lookup": v["input"]["lookup"], "subsets_x_orders_offered": v["evals"],
@@ -289,12 +289,18 @@ def run(res, tier, seed):
     missing = r_keys - confirmed
     if missing:
         raise vlib.ToolError(f"Gen_Nsec3 and Trace_Nsec3 disagree on {len(missing)} offered proofs, e.g. {sorted(missing)[0][:500]}")
+    examples = {}
     for m in mism:
         cl = classify(m)
         if not cl:
             raise vlib.ToolError("monitor rejected an event without a reason: " + json.dumps(m)[:600])
         for cls, fields in cl:
             res.mismatch(cls, fields, {"event": describe(m["event"]), "judge": m["judge"], "case": m["case"]})
+            k = cls + ":" + str(fields.get("explained_by", fields.get("expected", fields.get("lookup", ""))) ) + (
+                "->" + str(fields["got"]) if "got" in fields else "")
+            if k not in examples and len(examples) < 40:
+                examples[k] = describe(m["event"])
+    res.extra["disagreement_examples(one per class)"] = examples
 
 
 def replay(res, path):
